@@ -81,8 +81,14 @@ pub enum EvalErr {
     SoftforkStackDepthExceeded,
 }
 impl From<std::io::Error> for EvalErr {
-    fn from(_: std::io::Error) -> Self {
-        EvalErr::SerializationError
+    fn from(e: std::io::Error) -> Self {
+        // the size-limited serializers signal "limit exceeded" with
+        // ErrorKind::OutOfMemory, regardless of which write crossed the limit
+        if e.kind() == std::io::ErrorKind::OutOfMemory {
+            EvalErr::OutOfMemory
+        } else {
+            EvalErr::SerializationError
+        }
     }
 }
 
